@@ -159,6 +159,7 @@ Calls == {<<"chi_square", "", LamOf.pearson>>, <<"g_sq", "", LamOf.loglik>>, <<"
           <<"modified_log_likelihood", "", LamOf.modloglik>>, <<"power_divergence", "", LamOf.cr>>}
          \cup {<<"power_divergence", LamName[k], LamOf[k]>> : k \in DOMAIN LamOf}
          \cup {<<"power_divergence", "num", L>> : L \in AllLams}
+         \cup {<<"power_divergence", "freeman-tuckey", LamOf.ft>>}     \* the spelling pgmpy's own docstring lists for lambda = -1/2
 
 Result(S, L) ==
     LET F == Form(S, L)
@@ -209,5 +210,6 @@ Lemmas(D, X, Y, Z) ==
     LET S == Strata(D, X, Y, Z)
         St == Strata(D, Y, X, Z)
         Sr == Strata([D EXCEPT !.rows = Reverse(D.rows)], X, Y, Reverse(Z))
-    IN LemmaSymmetric(S, St) /\ LemmaOrder(S, Sr) /\ LemmaIndependent(S) /\ LemmaPearson(S)
+    IN /\ LemmaSymmetric(S, St) /\ LemmaOrder(S, Sr) /\ LemmaIndependent(S)
+       /\ (Len(D.rows) <= 12 => LemmaPearson(S))      \* exact evaluation of squared ratios: small data only (32-bit integers)
 =============================================================================
